@@ -36,6 +36,14 @@
 	#define BLOB_PAGE_SIZE 1
 #endif
 
+#if defined(BEE2_VERIF) && defined(BEE2_VERIF_BLOB_COUNT)
+	// число существующих блобов (монитор утечек)
+	long bee2_verif_blob_live = 0;
+	#define VERIF_BLOB(d) ((void)__sync_add_and_fetch(&bee2_verif_blob_live, (d)))
+#else
+	#define VERIF_BLOB(d)
+#endif
+
 // требуется страниц
 #define blobPageCount(size)\
 	(((size) + sizeof(size_t) + BLOB_PAGE_SIZE - 1) / BLOB_PAGE_SIZE)
@@ -66,6 +74,7 @@ blob_t blobCreate(size_t size)
 		return 0;
 	*ptr = size;
 	memSetZero(blobValueOf(ptr), size);
+	VERIF_BLOB(1);
 	return blobValueOf(ptr);
 }
 
@@ -88,6 +97,7 @@ void blobClose(blob_t blob)
 	{
 		memWipe(blobPtrOf(blob), blobActualSizeOf(blob));
 		memFree(blobPtrOf(blob));
+		VERIF_BLOB(-1);
 	}
 }
 
